@@ -112,6 +112,53 @@ frame the private copy is expressed in *now* -/
 def copy (s : St F Mat Vec) : St F Mat Vec :=
   { s with orbFrame := s.orbCur }
 
+/-! ### `sv.cov = c` (StateVector.cov setter → `Cov.orb` setter)
+
+`self._data["cov"] = value; value.orb = self`: the covariance gets a NEW private copy — the state it is
+attached to, cartesian, **in the frame that state is expressed in now** (`g`, coordinates `x`) — while
+`_orb_frame`, set once in `__new__`, keeps naming the frame of the state the covariance was built for.
+Tag and values are untouched. -/
+
+/-- `sv.cov = c` as the code is: the private copy is re-seated, `_orb_frame` is not -/
+def attach (s : St F Mat Vec) (g : F) (x : Vec) : St F Mat Vec :=
+  { s with orbCur := g, orb := x }
+
+/-- `sv.cov = c` with proposed_fixes/C14-attach-keeps-orb-frame.diff applied (`Cov.orb` setter also sets
+`_orb_frame = orb.frame`): NOT the code; the model of the patched code, about which
+`BeyondVerif.C14.attachFix_path_independent` is proved -/
+def attachFix (s : St F Mat Vec) (g : F) (x : Vec) : St F Mat Vec :=
+  { s with orbFrame := g, orbCur := g, orb := x }
+
+/-! ### What the third argument of `Cov(orb, values, frame)` may be
+
+The docstring says `frame (str)`, io/ccsds/cov.py passes the text of COV_REF_FRAME, the tests pass a
+`Frame` object or "QSW"/"TNW".  `__new__` stores the argument as it is.  A *name* other than
+QSW/TNW is never resolved: every later `cov.frame = …` evaluates `self.frame.orientation` on a `str`
+(AttributeError) and `sv.frame = …` compares a `str` with a `Frame` (never equal: the covariance stays
+behind).  The state machine above starts from a `Tag` (a Frame object or QSW/TNW); `CtorArg` makes the
+excluded case explicit. -/
+
+/-- the `frame` argument of the constructor -/
+inductive CtorArg (F : Type) where
+  /-- a `Frame` object -/
+  | obj (f : F)
+  /-- "QSW" / "TNW" -/
+  | loc (k : Loc)
+  /-- any other `str`: the name of a frame, stored unresolved -/
+  | name (n : String)
+
+/-- the tag of the model for a constructor argument; `none`: outside the model (known findings
+C14-frame-name-tag-*) -/
+def CtorArg.tag? : CtorArg F → Option (Tag F)
+  | .obj f => some (.frame f)
+  | .loc k => some (.loc k)
+  | .name _ => none
+
+/-- outcome of `c = Cov(sv, values, arg); c.frame = t` as the code is: a name-tagged covariance raises
+AttributeError for every target (`m1` is computed first: `self.frame.orientation`) -/
+def ctorThenSet (E : Env F Mat Vec) (f : F) (x : Vec) (a : CtorArg F) (c : Mat) (t : Tag F) : Option (St F Mat Vec) :=
+  (a.tag?).map (fun tag => setFrame E (St.new f x tag c) t)
+
 /-- a state vector with an attached covariance: the frame of the state and the `Cov` -/
 structure Sv (F Mat Vec : Type) where
   frame : F
